@@ -2,6 +2,8 @@ import Lean.Data.Json
 import GristModel
 import Driver.Treeview
 import Driver.Engine
+import Driver.SortedFind
+import Driver.Schedule
 import Driver.Identifiers
 open Lean
 
@@ -12,6 +14,8 @@ def handleStateless (m : String) (j : Json) : Except String Json :=
   match m with
   | "treeview" => handleTreeview j
   | "identifiers" => handleIdentifiers j
+  | "schedule" => handleSchedule j
+  | "sortedfind" => handleSortedFind j
   | _ => throw s!"unknown model {m}"
 
 structure AllState where
